@@ -83,4 +83,22 @@ func Harness_P3_Layered() {
 			vhAssert(n.LayerPos == i, "layer-nodes-sorted-by-position-and-positions-are-a-permutation")
 		}
 	}
+	// C13: a rooted tree (single root, every other node exactly one parent; or the mirror image) is ordered without crossings
+	roots, sinks, outTree, inTree := 0, 0, true, true
+	for _, n := range flat {
+		if len(n.In) == 0 {
+			roots++
+		} else if len(n.In) != 1 {
+			outTree = false
+		}
+		if len(n.Out) == 0 {
+			sinks++
+		} else if len(n.Out) != 1 {
+			inTree = false
+		}
+	}
+	if (outTree && roots == 1) || (inTree && sinks == 1) {
+		vhReach("tree")
+		vhAssert(drawn == 0, "rooted-tree-ordered-without-crossings")
+	}
 }
